@@ -248,6 +248,17 @@ func (e *Exec) require(ok *sym.Term, kind, msg string) {
 
 // checkObl is the harness-level assertion.
 func (e *Exec) checkObl(c *sym.Term, id string) {
+	if len(e.cfg.CheckPrefix) > 0 {
+		sel := false
+		for _, p := range e.cfg.CheckPrefix {
+			if strings.HasPrefix(id, p) {
+				sel = true
+			}
+		}
+		if !sel {
+			return
+		}
+	}
 	key := "check/" + id
 	o := e.rep.obl(key)
 	if c.IsTrue() {
@@ -293,7 +304,7 @@ func (e *Exec) callFunction(fn *ssa.Function, args []Value, bind []Value) Value 
 			return r
 		}
 	}
-	if fn.Pkg != nil && e.harness != nil && fn.Pkg == e.harness.Pkg && fn.Blocks == nil {
+	if fn.Pkg != nil && e.harness != nil && fn.Blocks == nil && fn.Signature.Recv() == nil { // the shim is overlaid into every harness package
 		if h, ok := harnessAPI[fn.Name()]; ok {
 			return h(e, fn, args)
 		}
